@@ -8774,6 +8774,10 @@ impl<'a> Parser<'a> {
                 options,
             }),
             _ => {
+                // the table form (`DESCRIBE t`) has none of the statement form's modifiers
+                if analyze || verbose || query_plan || format.is_some() || options.is_some() {
+                    return self.expected("a statement to explain", self.peek_token());
+                }
                 let hive_format =
                     match self.parse_one_of_keywords(&[Keyword::EXTENDED, Keyword::FORMATTED]) {
                         Some(Keyword::EXTENDED) => Some(HiveDescribeFormat::Extended),
